@@ -355,10 +355,9 @@ func run(args []string, dir, stdout, stderr string, killAt int) (tr trace) {
 					}
 				}
 			}
-		case sig == syscall.SIGSTOP && isNew(wpid, tgid):
-			// initial stop of an auto-attached thread: swallow
 		case sig == syscall.SIGSTOP:
-			// initial SIGSTOP of a new tracee is swallowed; a real SIGSTOP is not expected
+			// initial stop of an auto-attached thread / child: swallowed (the traced
+			// program is not expected to receive a real SIGSTOP)
 		case sig == syscall.SIGTRAP:
 			// exec trap without TRACEEXEC or single-step: swallow
 		default:
@@ -370,13 +369,10 @@ func run(args []string, dir, stdout, stderr string, killAt int) (tr trace) {
 		}
 	}
 	tr.Procs = len(procs)
-	if killAt > 0 && tr.KilledAt == 0 && tr.Error == "" {
-		// ran to completion before reaching the kill point
-	}
+	// killAt > 0 && tr.KilledAt == 0: the program finished before reaching the kill point;
+	// the caller sees that from killed_at.
 	return
 }
-
-func isNew(tid int, tgid map[int]int) bool { _, ok := tgid[tid]; return !ok }
 
 func tgidOf(tid int) int {
 	b, err := os.ReadFile(fmt.Sprintf("/proc/%d/status", tid))
